@@ -259,6 +259,9 @@ def search(kind, tier='quick', limit=None):
                 if counts.get(p, 0) >= occ:
                     out, fired, late, cp = one_run(kind, inject=p, occurrence=occ)
                     tried += 1
+                    if fired and out == 'KeyboardInterrupt' and not late and cp and cp.startswith('[inside save]'):
+                        known_sites.append(f'{p[0]}:{p[1]}#{occ}')       # same known site class as in the first sweep
+                        continue
                     why = verdict(kind, p, out, fired, late, cp)
                     if why:
                         return dict(reproduced=True, level='api', backend=kind, point=list(p), occurrence=occ, tried=tried, summary=why + f' (occurrence {occ})')
